@@ -151,6 +151,33 @@ package graph
 //@     invariant restMap: forall k string :: !(k in visited) ==> (k in s.Map) == (old(k in s.Map) || (k in other.Map && !(old(k in s.Deleted) && !(k in other.Modified)))) && (k in s.Map && k in other.Map ==> s.Map[k] == other.Map[k]) && (k in s.Map && !(k in other.Map) ==> s.Map[k] == old(s.Map[k]))
 //@     invariant restFlags: forall k string :: !(k in visited) ==> (k in s.Modified) == (old(k in s.Modified) || k in other.Modified) && (k in s.Deleted) == (old(k in s.Deleted) && !(k in other.Modified))
 
+// ---- Properties: lookups are reads ------------------------------------------------------------------------------
+//
+// A lookup must not change the tracked state (a fallback value cached in Map would be a change that no delta
+// records): the value lookups and the deleted-keys accessor are verified with an empty frame.
+//@ func NewPropertyResult(key string, value any) PropertyValue
+//@   nomod
+//@   ensures result != nil
+//@ func (s *Properties) Get(key string) PropertyValue
+//@   requires s != nil
+//@   nomod
+//@ func (s *Properties) GetOrDefault(key string, defaultValue any) PropertyValue
+//@   requires s != nil
+//@   nomod
+//@ func (s *Properties) GetWithFallback(key string, defaultValue any, fallbackKeys ...string) PropertyValue
+//@   requires s != nil
+//@   nomod
+//@   loop 0
+//@     invariant range: -1 <= rangeindex
+//@ func (s *Properties) DeletedProperties() []string
+//@   requires s != nil
+//@   nomod
+//@   ensures none: s.Deleted == nil ==> len(result) == 0
+//@   ensures sub: forall i int :: {:pattern result[i]} 0 <= i && i < len(result) ==> result[i] in s.Deleted
+//@   loop 0
+//@     invariant own: fresh(deletedPropertyKeys.arr) && len(deletedPropertyKeys) >= 0
+//@     invariant sub: forall i int :: {:pattern deletedPropertyKeys[i]} 0 <= i && i < len(deletedPropertyKeys) ==> deletedPropertyKeys[i] in s.Deleted
+
 // ---- Kinds: membership test and ownership of Add's result -------------------------------------------------
 //
 // Node.AddKinds / DeleteKinds / Merge are covered by the exhaustive bounded harness /verif/bounded/c12_kinds_test.go
